@@ -107,7 +107,30 @@ def _np_imag(ex, node, x):
     return x.im if isinstance(x, Cx) else sp.Integer(0)
 
 
-NPX = Namespace("np", {"sign": _np_sign, "abs": _np_abs, "real": _np_real, "imag": _np_imag})
+ISZ = sp.Function("iszero_", real=True)
+
+
+def _np_copysign(ex, node, x, y):
+    """np.copysign(x, y) over the reals: |x| * s(y) with s(y) = sign(y) for y != 0 and s(0) = +1 (a real zero is +0.0): sign_(y) + iszero_(y).
+    iszero_ is 0 for a generic (non-zero) frequency and 1 where the mode's frequency vanishes (see the zero-state obligation)."""
+    y = sp.expand(sp.sympify(y))
+    return _np_abs(ex, node, x) * (canon_sign(y) + (ISZ(y) if y != 0 else sp.Integer(1)))
+
+
+def strip_iszero(v):
+    """generic (non-zero) frequencies: iszero_ = 0.  Loses nothing in the identities: where a frequency is exactly zero the stripped term carries that frequency as a factor."""
+    if isinstance(v, (tuple, list)):
+        return type(v)(strip_iszero(x) for x in v)
+    if isinstance(v, dict):
+        return {k_: strip_iszero(x) for k_, x in v.items()}
+    try:
+        v = sp.sympify(v)
+    except Exception:
+        return v
+    return v.replace(lambda t_: isinstance(t_, sp.core.function.AppliedUndef) and t_.func.__name__ == "iszero_", lambda t_: sp.Integer(0)) if hasattr(v, "replace") else v
+
+
+NPX = Namespace("np", {"sign": _np_sign, "abs": _np_abs, "real": _np_real, "imag": _np_imag, "copysign": _np_copysign})
 
 
 def abs_rels(*exprs):
@@ -203,7 +226,8 @@ def one_config(cfg):
     if len(paths) != 1 or paths[0].outcome != "return":
         b.subset_exits.append(f"{fn.key} [{tag}]: expected one returning path, got {[(p.outcome, repr(p.value)[:80]) for p in paths]}")
         return b
-    uniq, terms = paths[0].value
+    uniq, terms_raw = paths[0].value
+    terms = strip_iszero(terms_raw)
     # per-signature facts of calculate_terms
     for sig, byl in terms.items():
         for l, (h, dM_, dw_, dO_) in byl.items():
@@ -214,14 +238,15 @@ def one_config(cfg):
                      hyps=PRE, rels=abs_rels(*[h for byl in terms.values() for (h, _, _, _) in byl.values()]), backends=("qqnf",), timeout=120))
     b.add(Obligation(oid=f"{fn.key}::ensures:frequency_of_signature[{tag}]", fn=fn.key, clause="ensures every stored unique frequency is |mode| >= 0 of the modes grouped under its signature",
                      goal=None, decided=_freq_sig_check(maxl, ecc, inc, spin, uniq)))
-    fc, cpaths = run_collapse(b, maxl, uniq, terms, cpl)
+    fc, cpaths = run_collapse(b, maxl, uniq, terms_raw, cpl)
     if not cpaths:
         return b
     ret = [p for p in cpaths if p.outcome == "return"]
     if len(ret) != 1:
         b.subset_exits.append(f"{fc.key} [{tag}]: expected one returning path, got {len(ret)} of {len(cpaths)}")
         return b
-    heating, dUdM, dUdw, dUdO = ret[0].value[:4]
+    raw4 = ret[0].value[:4]
+    heating, dUdM, dUdw, dUdO = strip_iszero(tuple(raw4))
     rels = abs_rels(heating, dUdM, dUdO)
     b.add(Obligation(oid=f"{fc.key}::ensures:heating_identity[{tag}]", fn=fc.key,
                      clause="ensures tidal_heating == host_mass * (n dUdM - Omega dUdO) for the returned values",
@@ -251,7 +276,7 @@ def one_config(cfg):
             if m != l - 2 * p:
                 zero_sub[sym] = sp.Integer(0)
     if same:
-        vals = [v.xreplace(zero_sub) for v in (heating, dUdM, dUdw, dUdO)]
+        vals = [sp.sympify(v).xreplace(zero_sub) for v in raw4]
         b.add(Obligation(oid=f"{fc.key}::ensures:zero_state[{tag}]", fn=fc.key,
                          clause="ensures e = 0, I = 0, Omega = n (same object) ==> heating == dUdM == dUdw == dUdO == 0",
                          goal=sp.And(*[sp.Eq(v, 0) for v in vals]), hyps=PRE, backends=("qqnf",)))
@@ -264,8 +289,10 @@ def one_config(cfg):
                 if isinstance(t, sp.core.function.AppliedUndef) and t.func.__name__ in ("abs_", "sign_"):
                     if sp.expand(t.args[0].subs(Om, n)) == 0:
                         rep[t] = sp.Integer(0)
+                if isinstance(t, sp.core.function.AppliedUndef) and t.func.__name__ == "iszero_":
+                    rep[t] = sp.Integer(1) if sp.expand(t.args[0].subs(Om, n)) == 0 else sp.Integer(0)
             return v.xreplace(rep)
-        vals = [at_sync(v) for v in (heating, dUdM, dUdw, dUdO)]
+        vals = [at_sync(sp.sympify(v)) for v in raw4]
         b.add(Obligation(oid=f"{fc.key}::ensures:zero_state[{tag}]", fn=fc.key,
                          clause="ensures e = 0, I = 0, Omega == n in value (distinct objects; sign(0) = |0| = 0) ==> all four outputs == 0",
                          goal=sp.And(*[sp.Eq(v, 0) for v in vals]), hyps=PRE, backends=("qqnf",)))
@@ -524,6 +551,14 @@ def replay(doc):
     cfg = dict(maxl=int(m.group(1)), N=int(m.group(2)), on=m.group(3) == "on", same=m.group(4) == "sync", cpl=m.group(5) == "cpl")
     if "zero_state" in doc["obligation"]:
         cfg.update(e=0.0, I=0.0, spin_ratio=1.0)
+        # the state of the statement through the public API: circular, zero obliquity, spin equal to n IN VALUE (distinct array objects, one element
+        # of a spin sweep), for a frequency-independent (CPL) and a Maxwell response
+        z = native.run(dict(code=_ZERO_STATE_CODE), timeout=900)
+        try:
+            if any(abs(x_) > 0 for x_ in z["result"]["values"]):
+                return dict(replayed=True, native=z, confirmed=True, what="quick_tidal_dissipation with array inputs, e = 0, I = 0, spin == n in value: dU/dM, dU/dw, dU/dO, heating must all vanish")
+        except Exception:
+            pass
     r = native.run(dict(code=_REPLAY_CODE, args=cfg), timeout=600)
     rec = dict(replayed=True, config=cfg, native=r)
     if "result" not in r:
@@ -540,6 +575,22 @@ def replay(doc):
     rec["confirmed"] = bool(bad_id or bad_grp or bad_neg or bad_zero)
     return rec
 
+
+_ZERO_STATE_CODE = r'''
+import numpy as np
+from TidalPy.toolbox.quick_tides import quick_tidal_dissipation
+M_HOST, RADIUS, MASS, GRAVITY, DENSITY = 1.9e27, 1.8e6, 8.9e22, 1.8, 3500.
+MOI = 0.4 * MASS * RADIUS**2
+N = 2. * np.pi / (1.77 * 86400.)
+vals = []
+for kw in (dict(rheology='cpl', fixed_k2=0.3, fixed_q=100.), dict(rheology='maxwell', viscosity=1e16, shear_modulus=5e10)):
+    n_arr = N * np.ones(3); spin_arr = N * np.asarray([0.5, 1.0, 2.0])
+    r = quick_tidal_dissipation(M_HOST, RADIUS, MASS, GRAVITY, DENSITY, MOI, eccentricity=np.zeros(3), obliquity=np.zeros(3), orbital_frequency=n_arr, spin_frequency=spin_arr,
+                                max_tidal_order_l=2, eccentricity_truncation_lvl=2, use_obliquity=True, **kw)
+    for k in ('tidal_heating', 'dUdM', 'dUdw', 'dUdO'):
+        vals.append(float(np.asarray(r[k]).ravel()[1]))
+result = dict(values=vals)
+'''
 
 _ALIAS_CODE = r'''
 import numpy as np
